@@ -424,8 +424,8 @@ def build(recipe):
             y = new_value(nm, x["shape"], x["dtype"], x["q"])
             add_op(BO[op], [x["t"]], [y["t"]])
         elif op == "CUSTOM":
-            y = new_value(nm, L.get("shape", x["shape"]), L.get("odtype", x["dtype"]), oq)
-            add_op(BO["CUSTOM"], [v["t"] for v in ins], [y["t"]], None, custom=L.get("code", "VerifThirdParty"),
+            ys = [new_value(nm if j == 0 else f"{nm}_{j}", L.get("shape", x["shape"]), L.get("odtype", x["dtype"]), oq) for j in range(L.get("n_out", 1))]
+            add_op(BO["CUSTOM"], [v["t"] for v in ins], [y_["t"] for y_ in ys], None, custom=L.get("code", "VerifThirdParty"),
                    custom_options=bytes(L.get("options", [1, 2, 3, 4])))
         elif op == "GATHER":
             idx = L["indices"]
@@ -848,6 +848,11 @@ def gen_recipe(r, cfg=None, profile="mixed"):
                 emit(dict(op="CONCATENATION", axis=ax, q=list(q_), **{"in": ins_}), shp, tuple(q_))
             elif op == "PAD":
                 pads = [[0, 0], [r.randint(0, 2), r.randint(0, 2)], [r.randint(0, 2), r.randint(0, 2)], [0, 0]]
+                if r.random() < 0.3:
+                    pads[3] = [r.choice([0, 0, 1, 8]), r.choice([0, 3, 8])]  # depth padding
+                    if r.random() < 0.3:
+                        pads[0] = [r.choice([0, 1]), r.choice([0, 1])]  # and batch padding (the result is then only a network output)
+                        pads[1], pads[2] = [0, 0], [0, 0]
                 shp = [s + p[0] + p[1] for s, p in zip(x["shape"], pads)]
                 emit(dict(op="PAD", pads=pads, **{"in": [xi]}), shp, x["q"])
             elif op == "SPLIT_V":
@@ -997,8 +1002,19 @@ def gen_recipe(r, cfg=None, profile="mixed"):
             if kind in ("dyn_fc", "argmax"):
                 continue
             if kind == "custom":
-                emit(dict(op="CUSTOM", code=r.choice(["VerifThirdParty", "OtherVendorOp"]), options=[r.randrange(256) for _ in range(r.randint(0, 9))],
-                          **{"in": [xi]}), x["shape"], x["q"])
+                ins_c = [xi]
+                if r.random() < 0.25:
+                    # the (folded) shape of the tensor as a second operand of an operator that stays on the CPU
+                    ins_c.append(emit(dict(op="SHAPE", **{"in": [xi]}), [len(x["shape"])], None, odtype="int32")[0])
+                n_out = r.choice([1, 1, 2, 2, 3])
+                ids_c = emit(dict(op="CUSTOM", code=r.choice(["VerifThirdParty", "OtherVendorOp"]), options=[r.randrange(256) for _ in range(r.randint(0, 9))], n_out=n_out,
+                               **{"in": ins_c}), x["shape"], x["q"], n_out=n_out)
+                if n_out > 1:
+                    if r.random() < 0.5:
+                        # a later output (not the first) feeds an operator the NPU can take
+                        emit(dict(op=r.choice(["RELU", "MAX_POOL_2D"]), k=[2, 2], stride=[1, 1], pad="SAME", act="NONE", **{"in": [ids_c[-1]]}), x["shape"], x["q"])
+                    if r.random() < 0.4:
+                        vals[ids_c[r.randrange(n_out)]]["dangling"] = True  # an output nothing reads and that is no network output either
             elif kind == "deq_floor_q":
                 a = emit(dict(op="DEQUANTIZE", **{"in": [xi]}), x["shape"], None, odtype="float32")
                 b = emit(dict(op=r.choice(["FLOOR", "CEIL", "NEG"]), **{"in": a}), x["shape"], None, odtype="float32")
@@ -1019,11 +1035,11 @@ def gen_recipe(r, cfg=None, profile="mixed"):
                 emit(dict(op="TRANSPOSE", perm=[0, 2, 1, 3], **{"in": [xi]}), [1, W, H, C], x["q"])
     if not layers:
         emit(dict(op="RELU", **{"in": [0]}), vals[0]["shape"], vals[0]["q"])
-    outs = [i for i, v in enumerate(vals) if v["uses"] == 0 and i >= len(inputs)]
+    outs = [i for i, v in enumerate(vals) if v["uses"] == 0 and i >= len(inputs) and not v.get("dangling")]
     if not outs:
         outs = [len(vals) - 1]
     for i, v in enumerate(vals):
-        if i >= len(inputs) and i not in outs and r.random() < cfg["extra_out_p"]:
+        if i >= len(inputs) and i not in outs and r.random() < cfg["extra_out_p"] and not v.get("dangling"):
             outs.append(i)
     return dict(name="net", inputs=inputs, layers=layers, outputs=outs, dup_names=cfg["dup_names"])
 
@@ -1066,6 +1082,8 @@ def _n_out(L):
         return L["n_out"]
     if L["op"] == "SPLIT_V":
         return len(L["sizes"])
+    if L["op"] == "CUSTOM":
+        return L.get("n_out", 1)
     return 1
 
 
